@@ -334,6 +334,24 @@ func (ma *ModAnalysis) callMods(f *ssa.Function, c *ssa.CallCommon, ms *ModSet) 
 	}
 	if callee := c.StaticCallee(); callee != nil {
 		addF("G:calls:" + shortFuncName(callee))
+		switch callee.String() {
+		case "(*sync.Mutex).Lock", "(*sync.RWMutex).Lock", "(*sync.RWMutex).RLock", "(*sync.Cond).Wait":
+			// which monitor? (the mutex is a field of some struct)
+			if fa, ok := c.Args[0].(*ssa.FieldAddr); ok {
+				st := fa.X.Type().Underlying().(*types.Pointer).Elem()
+				fname := st.Underlying().(*types.Struct).Field(fa.Field).Name()
+				if callee.Name() == "Wait" {
+					addF("MONITORCOND:" + ma.e.structName(st) + "." + fname)
+				} else {
+					addF("MONITOR:" + ma.e.structName(st) + "." + fname)
+				}
+				addF("G:held")
+				if callee.Name() == "Wait" {
+					addF("G:ctxdone")
+				}
+				return len(ms.Fams) != before || ms.Top != beforeTop
+			}
+		}
 		ma.calleeMods(callee, ms)
 		if _, inMod := ma.fn[callee]; inMod {
 			ma.funcArgMods(f, c, ms)
